@@ -125,7 +125,7 @@ def run(res):
         (pat % ctx.replace("@", "nowhere"), ("ERR",), "undefined-in-context")
         for ctx in ("low(@)", "high(@)", "byte2(@)", "byte3(@)", "byte4(@)", "lwrd(@)", "hwrd(@)", "page(@)", "exp2(@)", "log2(@)", "LOW(@)", "-@", "~@", "!@",
                     "(@)", "@+0", "0+@", "@*0", "0*@", "@-@", "@==@", "@&0", "0&@", "@|0", "@<<0", "1<<@", "@>>1", "@/1", "1/@", "@%1", "low(high(@))",
-                    "low(@+1)", "low(-@)", "-low(@)", "@<1", "@!=0")
+                    "low(@+1)", "low(-@)", "-low(@)", "@<1", "@!=0", "0&&@", "1||@", "@&&0", "@||1", "(0&&@)+1", "low(1||@)", "0*@+0&&@")
         for pat in (" .dw %s\n", " ldi r16, %s\n", ".set v = %s\n .dw v\n", ".equ q = %s\n .dw q\n", ".if %s\n nop\n.endif\n nop\n", ".org %s\n nop\n",
                     " .db %s, 0\n", ".eseg\n .db %s\n", " rjmp %s\n", " lds r16, %s\n", " ldd r16, Y+%s\n", " out %s, r16\n")
     ] + [
